@@ -30,7 +30,8 @@ type Op struct {
 	K     string `json:"k"` // ev plain adv flushall close
 	ID    int    `json:"id,omitempty"`
 	Flush bool   `json:"flush,omitempty"`
-	D     int64  `json:"d,omitempty"` // adv: clock advance in ns
+	Done  bool   `json:"ctx_done,omitempty"` // the call is made with an already cancelled context (the model ignores the context)
+	D     int64  `json:"d,omitempty"`        // adv: clock advance in ns
 }
 type Cfg struct {
 	Broker     bool  `json:"broker"`
@@ -45,6 +46,10 @@ type Case struct {
 	Gen string `json:"gen"`
 	Cfg Cfg    `json:"cfg"`
 	Ops []Op   `json:"ops"`
+	// IDMap, when set, maps the id numbers of the ops to entries of the id value table (model id = the entry's number)
+	IDMap []int `json:"id_map,omitempty"`
+	// AllDone: every call of the history is made with an already cancelled context
+	AllDone bool `json:"all_ctx_done,omitempty"`
 	// concurrent cases: one op list per goroutine, Ops unused
 	Threads [][]Op `json:"threads,omitempty"`
 	Ticker  int64  `json:"ticker,omitempty"` // a goroutine advances the clock by this much between yields
@@ -71,13 +76,16 @@ type world struct {
 	sent         [][]pair
 	sends        int
 	sentGateable bool
-	now          int64 // atomic
-	sameType     bool  // reentry scenarios: the composite keeps the event type of the group, so it is routed into the same pipeline
+	now          int64       // atomic
+	kept         []keptSlice // every slice handed to ComposeFrom: the very slice (no copy) and what it held at that moment
+	sameType     bool        // reentry scenarios: the composite keeps the event type of the group, so it is routed into the same pipeline
 }
 
 var cur *world // the world of the case being executed (ComposeFrom may be called on a nil receiver)
 
-var idName = []string{"", "a", "b", "c", "d", "e"}
+// the id values: plain tokens, ids with leading / trailing / inner white space (6..10: distinct ids that differ from "a" only by
+// white space), a very long id, a non-ASCII id, an id made of white space only (not empty: gated like any other id)
+var idName = []string{"", "a", "b", "c", "d", "e", " a", "a ", " a ", "a b", "\ta\n", strings.Repeat("x", 300), "ä-日本-🔥", " "}
 
 func idNum(s string) int {
 	for i, n := range idName {
@@ -111,18 +119,47 @@ func (g *gcomposite) ComposeFrom(evs []*el.Event) (el.EventType, interface{}, er
 	return composeFrom(evs)
 }
 
-func composeFrom(evs []*el.Event) (el.EventType, interface{}, error) {
-	w := cur
+// a composite is entitled to keep the slice ComposeFrom was given: the harness does, and re-reads it later
+type keptSlice struct {
+	raw  []*el.Event
+	snap []pair
+}
+
+func readPairs(evs []*el.Event) []pair {
 	arg := make([]pair, 0, len(evs))
 	for _, x := range evs {
-		if p, ok := x.Payload.(*gp); ok {
+		if x == nil {
+			arg = append(arg, pair{96, 0})
+		} else if p, ok := x.Payload.(*gp); ok {
 			arg = append(arg, pair{idNum(p.id), p.n})
 		} else {
 			arg = append(arg, pair{98, 0}) // something that was never a gated event
 		}
 	}
+	return arg
+}
+
+// mutated: does some slice handed to ComposeFrom earlier no longer hold the events it held then?
+func (w *world) mutated() bool {
+	w.mu.Lock()
+	defer w.mu.Unlock()
+	for _, k := range w.kept {
+		now := readPairs(k.raw)
+		for i := range now {
+			if now[i] != k.snap[i] {
+				return true
+			}
+		}
+	}
+	return false
+}
+
+func composeFrom(evs []*el.Event) (el.EventType, interface{}, error) {
+	w := cur
+	arg := readPairs(evs)
 	w.mu.Lock()
 	w.composeArgs = append(w.composeArgs, arg)
+	w.kept = append(w.kept, keptSlice{evs, arg})
 	w.mu.Unlock()
 	if w.cfg.CFailLen != 0 && len(arg) == w.cfg.CFailLen {
 		return "", nil, errors.New("compose failed")
@@ -183,6 +220,7 @@ type Obs struct {
 	SentGateable bool     `json:"sent_gateable,omitempty"`
 	Gated        []Grp    `json:"gated,omitempty"`
 	IndexOK      bool     `json:"index_ok"`
+	Mutated      bool     `json:"composite_mutated,omitempty"`
 }
 
 func newFilter(w *world) *gated.Filter {
@@ -233,8 +271,56 @@ func classify(ev *el.Event, out *el.Event, err error, isPlain bool, n int) (int,
 	return 2, nil
 }
 
-// execCase runs a sequential case; obs[i] belongs to the i-th op that is a call (adv ops only move the clock)
-func execCase(c Case) (calls []Op, nums []int, obs []Obs, panicked interface{}) {
+// Hang records a history one of whose calls did not return within the watchdog
+type Hang struct {
+	Case   Case   `json:"case"`
+	Call   int    `json:"call"` // index among the calls of the history
+	Op     string `json:"op"`
+	Dump   string `json:"goroutine_dump,omitempty"`
+	Millis int64  `json:"watchdog_ms"`
+}
+
+var historyWatchdog = 3 * time.Second
+
+// execCase runs a history on its own goroutine under a watchdog: a call that never returns (a spin or a deadlock inside the
+// filter) must not take the harness with it.  On a hang the filter and the goroutine are abandoned.
+func execCase(c Case) (calls []Op, nums []int, obs []Obs, panicked interface{}, hung *Hang) {
+	type result struct {
+		calls []Op
+		nums  []int
+		obs   []Obs
+		p     interface{}
+	}
+	var at int32 = -1
+	done := make(chan result, 1)
+	go func() {
+		var r result
+		r.calls, r.nums, r.obs, r.p = execCaseInner(c, &at)
+		done <- r
+	}()
+	select {
+	case r := <-done:
+		return r.calls, r.nums, r.obs, r.p, nil
+	case <-time.After(historyWatchdog):
+		buf := make([]byte, 1<<16)
+		buf = buf[:runtime.Stack(buf, true)]
+		k, i := int(atomic.LoadInt32(&at)), 0
+		h := &Hang{Case: c, Call: k, Dump: string(buf), Millis: historyWatchdog.Milliseconds()}
+		for _, op := range c.Ops {
+			if op.K == "adv" {
+				continue
+			}
+			if i == k {
+				js, _ := json.Marshal(op)
+				h.Op = string(js)
+			}
+			i++
+		}
+		return nil, nil, nil, nil, h
+	}
+}
+
+func execCaseInner(c Case, at *int32) (calls []Op, nums []int, obs []Obs, panicked interface{}) {
 	w := &world{cfg: c.Cfg, now: 1000}
 	cur = w
 	f := newFilter(w)
@@ -251,11 +337,21 @@ func execCase(c Case) (calls []Op, nums []int, obs []Obs, panicked interface{}) 
 			continue
 		}
 		n++
+		atomic.StoreInt32(at, int32(n-1))
 		w.mu.Lock()
 		c0, s0 := len(w.composeArgs), len(w.sent)
 		w.sentGateable = false
 		w.mu.Unlock()
 		o := Obs{Now: atomic.LoadInt64(&w.now)}
+		if op.K == "ev" && c.IDMap != nil && op.ID < len(c.IDMap) {
+			op.ID = c.IDMap[op.ID]
+		}
+		ctx := ctx
+		if op.Done || c.AllDone {
+			dctx, cancel := context.WithCancel(ctx)
+			cancel()
+			ctx = dctx
+		}
 		switch op.K {
 		case "ev":
 			ev := &el.Event{Type: "t", Payload: &gp{id: idName[op.ID], flush: op.Flush, n: n}}
@@ -285,6 +381,7 @@ func execCase(c Case) (calls []Op, nums []int, obs []Obs, panicked interface{}) 
 		o.SentGateable = w.sentGateable
 		w.mu.Unlock()
 		o.Gated, o.IndexOK = snapshot(f)
+		o.Mutated = w.mutated()
 		calls = append(calls, op)
 		nums = append(nums, n)
 		obs = append(obs, o)
@@ -307,6 +404,7 @@ type CObs struct {
 	FinalRes     int      `json:"final_res"`
 	FinalGated   []Grp    `json:"final_gated,omitempty"`
 	SentGateable bool     `json:"sent_gateable,omitempty"`
+	Mutated      bool     `json:"composite_mutated,omitempty"`
 }
 
 func execConc(c Case) (o CObs, panicked interface{}) {
@@ -375,6 +473,7 @@ func execConc(c Case) (o CObs, panicked interface{}) {
 	o.CallsOK = true
 	o.SentGateable = w.sentGateable
 	w.mu.Unlock()
+	o.Mutated = w.mutated()
 	return
 }
 
@@ -485,6 +584,7 @@ func execBlocked(c Case) (o CObs, panicked interface{}) {
 	o.SentGateable = w.sentGateable
 	w.mu.Unlock()
 	o.CallsOK = callsOK
+	o.Mutated = w.mutated()
 	return
 }
 
@@ -568,7 +668,7 @@ func runReentry(watchdog time.Duration) []ReentryResult {
 		{"gateable-flush", Cfg{Broker: true, Exp: 10, CGateLen: 1, CGateFlush: true}},
 	}
 	for _, k := range kinds {
-		for _, sc := range []string{"expiry-during-process", "flushall", "close-by-remove-pipeline-and-nodes"} {
+		for _, sc := range []string{"expiry-during-process", "sweep-oldest-expired-next-not", "flushall", "close-by-remove-pipeline-and-nodes"} {
 			w := &world{cfg: k.cfg, now: 1000, sameType: true}
 			cur = w
 			b, err := el.NewBroker()
@@ -603,6 +703,10 @@ func runReentry(watchdog time.Duration) []ReentryResult {
 			switch sc {
 			case "expiry-during-process":
 				steps = append(steps, step{"advance clock past expiry", func() { atomic.AddInt64(&w.now, 11) }}, step{"Send(b) flushes expired a", send("b")}, step{"Send(c)", send("c")})
+			case "sweep-oldest-expired-next-not":
+				// a opened at 1000 (expires after 1010), b at 1005 (expires after 1015); at 1011 the sweep meets an expired group followed by one that is not
+				steps = append(steps, step{"advance clock by 5", func() { atomic.AddInt64(&w.now, 5) }}, step{"Send(b)", send("b")},
+					step{"advance clock by 6: a expired, b not", func() { atomic.AddInt64(&w.now, 6) }}, step{"Send(c) sweeps a, must step over b", send("c")}, step{"Send(d)", send("d")})
 			case "flushall":
 				steps = append(steps, step{"FlushAll", func() { _ = f.FlushAll(ctx) }}, step{"Send(c)", send("c")})
 			default:
@@ -660,8 +764,8 @@ func hopLit(op Op, n int) string {
 	return "HClose"
 }
 func obsLit(o Obs) string {
-	return fmt.Sprintf("Build_gobs %s %s %s %s %s %s %s %s", hc.Z(o.Now), hc.N(o.Res), pairsLit(o.Comp), pairssLit(o.Compose), pairssLit(o.Sent),
-		hc.B(o.SentGateable), gatedLit(o.Gated), hc.B(o.IndexOK))
+	return fmt.Sprintf("Build_gobs %s %s %s %s %s %s %s %s %s", hc.Z(o.Now), hc.N(o.Res), pairsLit(o.Comp), pairssLit(o.Compose), pairssLit(o.Sent),
+		hc.B(o.SentGateable), gatedLit(o.Gated), hc.B(o.IndexOK), hc.B(o.Mutated))
 }
 func cfgLit(c Cfg) string {
 	return fmt.Sprintf("(Build_gcfg %s %s %s %s %s)", hc.B(c.Broker), hc.Z(c.Exp), hc.N(c.CFailLen), hc.N(c.CGateLen), hc.N(c.SFail))
@@ -678,7 +782,7 @@ func concLit(c Case, o CObs) string {
 	for i, e := range o.Events {
 		evs[i] = fmt.Sprintf("(%s,%s,%s,%s)", hc.N(e.ID), hc.N(e.N), hc.N(e.Res), pairsLit(e.Comp))
 	}
-	return fmt.Sprintf("Build_ccase %s (Build_cobs %s\n  %s %s %s %s %s %s)", hc.N(c.ID), hc.List(evs), pairssLit(o.Compose), pairssLit(o.Sent), hc.B(o.CallsOK), hc.N(o.FinalRes), gatedLit(o.FinalGated), hc.B(o.SentGateable))
+	return fmt.Sprintf("Build_ccase %s (Build_cobs %s\n  %s %s %s %s %s %s %s)", hc.N(c.ID), hc.List(evs), pairssLit(o.Compose), pairssLit(o.Sent), hc.B(o.CallsOK), hc.N(o.FinalRes), gatedLit(o.FinalGated), hc.B(o.SentGateable), hc.B(o.Mutated))
 }
 
 // ---------- emitter ----------
@@ -691,14 +795,33 @@ type emitter struct {
 	sigs      map[string]bool
 	nontriv   int
 	maxGroups int
+	hangs     []Hang
+	aborted   bool // two histories hung: every abandoned goroutine may be spinning, stop generating
+}
+
+func (e *emitter) noteHang(h *Hang) {
+	if len(e.hangs) > 0 {
+		h.Dump = "" // one goroutine dump is enough
+	}
+	e.hangs = append(e.hangs, *h)
+	if len(e.hangs) >= 2 {
+		e.aborted = true
+	}
 }
 
 func (e *emitter) emit(c Case) []Obs {
+	if e.aborted {
+		return nil
+	}
 	e.next++
 	c.ID = e.next
 	js, _ := json.Marshal(c)
 	fmt.Fprintf(e.side, "%s\n", js)
-	calls, nums, obs, p := execCase(c)
+	calls, nums, obs, p, hung := execCase(c)
+	if hung != nil {
+		e.noteHang(hung)
+		return nil
+	}
 	if p != nil {
 		e.panics = append(e.panics, fmt.Sprintf("case %d: panic: %v", c.ID, p))
 		return nil
@@ -777,13 +900,37 @@ func (e *emitter) emitConc(c Case) {
 	c.ID = e.next
 	js, _ := json.Marshal(c)
 	fmt.Fprintf(e.side, "%s\n", js)
+	if e.aborted {
+		return
+	}
 	var o CObs
 	var p interface{}
+	type cres struct {
+		o CObs
+		p interface{}
+	}
+	done := make(chan cres, 1)
+	go func() {
+		var r cres
+		if c.Blocked != nil {
+			r.o, r.p = execBlocked(c)
+		} else {
+			r.o, r.p = execConc(c)
+		}
+		done <- r
+	}()
+	select {
+	case r := <-done:
+		o, p = r.o, r.p
+	case <-time.After(5 * historyWatchdog):
+		buf := make([]byte, 1<<16)
+		buf = buf[:runtime.Stack(buf, true)]
+		e.noteHang(&Hang{Case: c, Call: -1, Op: "concurrent calls", Dump: string(buf), Millis: 5 * historyWatchdog.Milliseconds()})
+		e.aborted = true
+		return
+	}
 	if c.Blocked != nil {
-		o, p = execBlocked(c)
 		e.stats["blocked_send_cases"]++
-	} else {
-		o, p = execConc(c)
 	}
 	if p != nil {
 		e.panics = append(e.panics, fmt.Sprintf("case %d: panic: %v", c.ID, p))
@@ -871,6 +1018,11 @@ func stateKey(c Case, obs []Obs, calls int) string {
 // genBFS: every history up to maxDepth over the alphabet, up to equality of the implementation state reached
 // (a history is extended only if it reached a state not seen before; every transition out of every such state is emitted)
 func genBFS(e *emitter, cfg Cfg, ids, maxDepth, budget int, sym bool) (states int, exhaustive bool) {
+	return genBFSv(e, cfg, ids, maxDepth, budget, sym, nil, false)
+}
+
+// genBFSv: the same enumeration with the ids drawn from idMap and / or every call made with a cancelled context
+func genBFSv(e *emitter, cfg Cfg, ids, maxDepth, budget int, sym bool, idMap []int, allDone bool) (states int, exhaustive bool) {
 	alpha := alphabet(cfg, ids)
 	seen := map[string]bool{"empty": true}
 	frontier := [][]Op{nil}
@@ -880,7 +1032,7 @@ func genBFS(e *emitter, cfg Cfg, ids, maxDepth, budget int, sym bool) (states in
 		var next [][]Op
 		for _, h := range frontier {
 			for _, a := range alpha {
-				if budget > 0 && emitted >= budget {
+				if e.aborted || (budget > 0 && emitted >= budget) {
 					return len(seen), false
 				}
 				if sym && a.K == "ev" && a.ID > maxID(h)+1 {
@@ -889,11 +1041,21 @@ func genBFS(e *emitter, cfg Cfg, ids, maxDepth, budget int, sym bool) (states in
 					continue
 				}
 				ops := append(append([]Op(nil), h...), a)
-				c := Case{Gen: "bfs", Cfg: cfg, Ops: ops}
+				c := Case{Gen: "bfs", Cfg: cfg, Ops: ops, IDMap: idMap, AllDone: allDone}
+				if idMap != nil {
+					c.Gen = "bfs-ids"
+				}
+				if allDone {
+					c.Gen = "bfs-ctx-done"
+				}
 				var obs []Obs
 				if a.K == "adv" {
 					// a clock advance is not a call: nothing to observe yet, extend without emitting
-					_, _, obs, _ = execCase(c)
+					var hung *Hang
+					_, _, obs, _, hung = execCase(c)
+					if hung != nil {
+						e.noteHang(hung)
+					}
 				} else {
 					obs = e.emit(c)
 					emitted++
@@ -954,6 +1116,17 @@ func genRandom(e *emitter, r *hc.Rand, n, maxLen, ids int) {
 		}
 		nids := 1 + r.Intn(ids)
 		flushP := 1 + r.Intn(4) // of 10
+		var idMap []int
+		switch r.Intn(4) {
+		case 0:
+			idMap = []int{0, 6, 1, 7, 8, 10}
+		case 1:
+			idMap = []int{0, 13, 11, 12, 9, 2}
+		}
+		doneP := 0
+		if r.Chance(1, 3) {
+			doneP = 1 + r.Intn(3) // of 6
+		}
 		var ops []Op
 		for len(ops) < ln {
 			switch k := r.Intn(20); {
@@ -962,7 +1135,7 @@ func genRandom(e *emitter, r *hc.Rand, n, maxLen, ids int) {
 				if r.Chance(1, 25) {
 					id = 0
 				}
-				ops = append(ops, Op{K: "ev", ID: id, Flush: r.Chance(flushP, 10)})
+				ops = append(ops, Op{K: "ev", ID: id, Flush: r.Chance(flushP, 10), Done: r.Chance(doneP, 6)})
 			case k < 12:
 				ops = append(ops, Op{K: "plain"})
 			case k < 17:
@@ -972,12 +1145,12 @@ func genRandom(e *emitter, r *hc.Rand, n, maxLen, ids int) {
 				}
 				ops = append(ops, Op{K: "adv", D: d})
 			case k < 19:
-				ops = append(ops, Op{K: "flushall"})
+				ops = append(ops, Op{K: "flushall", Done: r.Chance(doneP, 6)})
 			default:
-				ops = append(ops, Op{K: "close"})
+				ops = append(ops, Op{K: "close", Done: r.Chance(doneP, 6)})
 			}
 		}
-		e.emit(Case{Gen: "random", Cfg: cfg, Ops: ops})
+		e.emit(Case{Gen: "random", Cfg: cfg, Ops: ops, IDMap: idMap})
 	}
 }
 
@@ -1101,7 +1274,11 @@ func main() {
 			}
 			return
 		}
-		calls, nums, obs, p := execCase(c)
+		calls, nums, obs, p, hung := execCase(c)
+		if hung != nil {
+			fmt.Printf("HUNG: call %d %s of this history did not return within %d ms; goroutine dump:\n%s\n", hung.Call, hung.Op, hung.Millis, hung.Dump)
+			os.Exit(3)
+		}
 		for i, o := range obs {
 			js, _ := json.Marshal(o)
 			fmt.Printf("call %d %s\n  -> %s\n", i, hopLit(calls[i], nums[i]), js)
@@ -1136,6 +1313,19 @@ func main() {
 				s, ex := genBFS(e, cfg, *bfsIDs, *bfsDepth, *bfsBudget, *bfsSym)
 				states += s
 				all = all && ex
+				if cfg.CFailLen == 0 && cfg.CGateLen == 0 && cfg.SFail == 0 && cfg.Exp != 0 {
+					// value classes of ids (white space around / inside, long, non-ASCII, white space only) and calls made with a cancelled context
+					d := *bfsDepth
+					if d > 5 {
+						d = 5
+					}
+					for _, m := range [][]int{{0, 6, 1, 7}, {0, 13, 11, 12}, {0, 8, 10, 9}} {
+						s, _ = genBFSv(e, cfg, *bfsIDs, d-1, *bfsBudget, true, m, false)
+						states += s
+					}
+					s, _ = genBFSv(e, cfg, *bfsIDs, d, *bfsBudget, true, nil, true)
+					states += s
+				}
 				if *bfsSym && *bfsNoSymDepth > 0 {
 					s, ex = genBFS(e, cfg, *bfsIDs, *bfsNoSymDepth, *bfsBudget, false)
 					states += s
@@ -1169,6 +1359,8 @@ func main() {
 	summary["cases"] = cf.Total + ccf.Total
 	summary["distinct_nontrivial"] = e.nontriv
 	summary["panics"] = e.panics
+	summary["hangs"] = e.hangs
+	summary["aborted_after_hangs"] = e.aborted
 	summary["seed"] = hc.Seed()
 	js, _ := json.MarshalIndent(summary, "", " ")
 	os.WriteFile(*out+"/"+*prefix+"_summary.json", js, 0o644)
